@@ -385,17 +385,23 @@ var AnalyzerCondStructure = &Analyzer{
 var AnalyzerBuiltinArity = &Analyzer{
 	Name:     "builtin-arity",
 	Severity: SeverityError,
-	Doc:      "Check argument counts for calls to known builtin functions and special forms.\n\nELPS builtin functions have well-defined argument signatures. This check catches calls with too few or too many arguments before runtime. User-defined functions that shadow builtin names are automatically excluded, including names bound by let/let*/flet/labels/macrolet. Binding lists, formals lists and threading macro children are also excluded.",
+	Doc:      "Check argument counts for calls to known builtin functions and special forms.\n\nELPS builtin functions have well-defined argument signatures. This check catches calls with too few or too many arguments before runtime. User-defined functions that shadow builtin names are automatically excluded, including names rebound globally with `set` and names bound by let/let*/flet/labels/macrolet. Binding lists, formals lists and threading macro children are also excluded.",
 	Run: func(pass *Pass) error {
-		// Collect the names defined by defun/defmacro anywhere in the file so we
-		// don't flag globally shadowed builtins.  Parameter names are NOT part of
-		// this file-global set: they are scoped to their function's body by
-		// aritySkipNodes.
+		// Collect the names defined by defun/defmacro, or bound globally by
+		// (set 'name ...), anywhere in the file so we don't flag globally
+		// shadowed builtins.  Parameter names are NOT part of this file-global
+		// set: they are scoped to their function's body by aritySkipNodes.
 		userDefs := make(map[string]bool)
 		WalkSExprs(pass.Exprs, func(sexpr *lisp.LVal, depth int) {
 			switch HeadSymbol(sexpr) {
 			case "defun", "defmacro":
 				if ArgCount(sexpr) >= 1 && sexpr.Cells[1].Type == lisp.LSymbol {
+					userDefs[sexpr.Cells[1].Str] = true
+				}
+			case "set":
+				// (set 'car (lambda (a b) ...)) rebinds the name as surely as a
+				// defun does: calls reach the new binding, not the builtin.
+				if ArgCount(sexpr) >= 1 && sexpr.Cells[1].Type == lisp.LSymbol && sexpr.Cells[1].IsQuoted() {
 					userDefs[sexpr.Cells[1].Str] = true
 				}
 			}
